@@ -59,6 +59,9 @@ pub struct Scenario {
     /// preemption bound for this scenario (None = the tier's default)
     #[serde(default)]
     pub bound: Option<usize>,
+    /// an actor that removes the registration frame of this context (C07)
+    #[serde(default)]
+    pub remove_ctx: Option<usize>,
 }
 
 const ACTIVE_DEFAULT: &[&str] = &[
@@ -213,6 +216,19 @@ pub fn run_one(sc: &Scenario, prefix: &[usize], props: &[&str]) -> ExecResult {
             }
         }));
     }
+    if let Some(ci) = sc.remove_ctx {
+        let who = Who::new("rm", 1);
+        sched.spawned(who);
+        let ctl2 = ctl.clone();
+        let store2 = store.clone();
+        let target = ctx_ids[ci];
+        threads.push(std::thread::spawn(move || {
+            xs::verif::set_actor(Some(who));
+            let _g = ExtGuard { ctl: ctl2.clone(), who };
+            ctl2.ext_point(who, "w.op", &|| true);
+            let _ = store2.remove(&target);
+        }));
+    }
     let reader_logs: Vec<Arc<Mutex<ReaderLog>>> = sc
         .readers
         .iter()
@@ -304,6 +320,11 @@ pub fn run_one(sc: &Scenario, prefix: &[usize], props: &[&str]) -> ExecResult {
             }
         };
         obs.observe(&store, &mut findings, props);
+        if let Some(ci) = sc.remove_ctx {
+            if obs.ctx_gone_at.is_none() && store.get(&ctx_ids[ci]).is_none() {
+                obs.ctx_gone_at = Some(ctl.steps().len());
+            }
+        }
         // candidates: enabled, beat only within its tick horizon
         let mut cands: Vec<(Who, &'static str)> = parked
             .iter()
@@ -393,6 +414,16 @@ pub fn run_one(sc: &Scenario, prefix: &[usize], props: &[&str]) -> ExecResult {
         let starts = reader_start.lock().unwrap();
         let final_stream: Vec<Frame> = store.read_sync(None, None, None).collect();
         obs.finish(&final_stream, &mut findings, props);
+        if let (Some(ci), Some(gone)) = (sc.remove_ctx, obs.ctx_gone_at) {
+            for a in app.iter() {
+                if a.frame.context_id == ctx_ids[ci] && a.writer.is_some() && a.began > gone && props.contains(&"C07") {
+                    findings.push(Finding {
+                        kind: "c07.accept_after_gone".into(),
+                        msg: format!("append {} into the context was accepted although it began after an observer had already found the registration frame gone", a.frame.id),
+                    });
+                }
+            }
+        }
         let all_ids: BTreeSet<Scru128Id> = app.iter().map(|a| a.frame.id).collect();
         let rank = |id: &Scru128Id| all_ids.iter().position(|x| x == id).map(|r| r.to_string()).unwrap_or("s".into());
         for (ri, rs) in sc.readers.iter().enumerate() {
@@ -493,6 +524,8 @@ struct Observer {
     poll_last: Option<Scru128Id>,
     polled: Vec<Scru128Id>,
     snapshots: usize,
+    /// step count at the first observation that found the removed registration frame gone
+    ctx_gone_at: Option<usize>,
 }
 
 impl Observer {
@@ -504,6 +537,7 @@ impl Observer {
             poll_last: None,
             polled: vec![],
             snapshots: 0,
+            ctx_gone_at: None,
         }
     }
 
@@ -778,6 +812,7 @@ fn base(name: &str) -> Scenario {
         probe: false,
         active: ACTIVE_DEFAULT.iter().map(|s| s.to_string()).collect(),
         bound: None,
+        remove_ctx: None,
     }
 }
 
@@ -959,6 +994,21 @@ pub fn scenarios(prop: &str, tier: &str) -> Vec<Scenario> {
             }
             v.push(s);
         }
+        "C07" => {
+            // removal of a registration racing appends into that context
+            let mut s = base("unregister-vs-append");
+            s.contexts = 1;
+            s.writers = vec![vec![fs("a", 1, ""), fs("a", 1, "")]];
+            s.remove_ctx = Some(1);
+            s.active.extend(["ctx.unregister", "commit.pre", "commit.post"].iter().map(|x| x.to_string()));
+            v.push(s);
+            let mut s = base("unregister-vs-2-appenders");
+            s.contexts = 1;
+            s.writers = vec![vec![fs("a", 1, "")], vec![fs("b", 1, "ephemeral")]];
+            s.remove_ctx = Some(1);
+            s.active.extend(["ctx.unregister", "commit.pre", "commit.post"].iter().map(|x| x.to_string()));
+            v.push(s);
+        }
         "C06" => {
             // scoped followers (from start, tail, last-id) with writers in both contexts
             let mut s = base("ctx-begin-2w1");
@@ -1024,6 +1074,7 @@ fn owned_props(prop: &str) -> Vec<&'static str> {
         "C03" => vec!["C03"],
         "C11" => vec!["C11"],
         "C06" => vec!["C06"],
+        "C07" => vec!["C07"],
         _ => vec![],
     }
 }
